@@ -79,6 +79,14 @@ where
     D: WriteXml + Debug + Send + Sync,
 {
     pub fn target(mut self, target: Datastore) -> Result<Self, Error> {
+        // RFC 6241 allows only <running/> (:writable-running) and <candidate/> (:candidate) as
+        // the target of <edit-config>; :startup does not extend it (section 8.7.5.1).
+        if matches!(target, Datastore::Startup) {
+            return Err(Error::UnsupportedTarget {
+                datastore: target,
+                required_capabilities: Requirements::None,
+            });
+        };
         target.try_as_target(self.ctx).map(|target| {
             self.target.set(target);
             self
